@@ -51,8 +51,7 @@ func c04Gen(c *core.Ctx, idx int) (*dp.Schema, *dp.DNode, bool) {
 	}
 	if gm := c04GoMode(idx); gm != nil {
 		// a schema one of the library's reflection nodes can hold: it becomes a second export source
-		o.Types, o.KeyTypes = dp.GoTypes(*gm), dp.GoKeyTypes(*gm)
-		o.CompoundKeys = gm.Shape == "struct"
+		dp.GoGen(&o, *gm)
 		o.Choices = o.Choices && gm.Shape == "map"
 		o.Aug = false
 	}
